@@ -442,31 +442,55 @@ DIGEST_SCRIPT = r"""
 import sys, json, hashlib
 sys.path.insert(0, sys.argv[1]); sys.path.insert(0, sys.argv[2])
 from vlib import gh, noisy
-h = hashlib.sha256()
-for name, text in noisy.corpus_texts():
+from checks.c15 import determinism_texts
+texts = determinism_texts()
+order = sys.argv[3]
+keys = sorted(texts)
+if order == "reverse":
+    keys = keys[::-1]
+elif order == "interleaved":
+    keys = keys[::2] + keys[1::2][::-1]
+out = {}
+for k in keys:
+    h = hashlib.sha256()
     for _ in range(2):
-        r = gh.parse_and_compile(text)
+        r = gh.parse_and_compile(texts[k])
         h.update(json.dumps(r, sort_keys=False, ensure_ascii=True, default=repr).encode())
-print(h.hexdigest())
+    out[k] = h.hexdigest()[:24]
+print(json.dumps(out))
 """
 
 
+def determinism_texts():
+    t = {"corpus:" + n: x for n, x in noisy.corpus_texts()}
+    t.update({"pool:" + k: v for k, v in POOL.items()})
+    for name in ("en_au", "en-au", "en_lol", "en-lol", "en_Scouse", "en-Scouse", "sr_Cyrl", "sr-Cyrl", "zh_CN", "zh-CN", "EN", "en", "Fr", "fr", "xx", "en-old", "en_old"):
+        t["lang:" + name] = "#language: %s\nFeature: f\n" % name
+    return t
+
+
 def check_determinism(case, stats):
-    digests = {}
-    for hs in case["hashseeds"]:
+    results = {}
+    for hs, order in case["runs"]:
         env = dict(os.environ, PYTHONHASHSEED=str(hs), PYTHONDONTWRITEBYTECODE="1")
-        r = subprocess.run([sys.executable, "-c", DIGEST_SCRIPT, os.path.join(REPO, "python"), VERIF], capture_output=True, text=True, env=env, timeout=300)
+        r = subprocess.run([sys.executable, "-c", DIGEST_SCRIPT, os.path.join(REPO, "python"), VERIF, order], capture_output=True, text=True, env=env, timeout=600,
+                           cwd=os.getcwd())
         if r.returncode != 0:
             raise HarnessError("determinism subprocess failed: " + r.stderr[-500:])
-        digests[hs] = r.stdout.strip()
-        stats.case(("hashseed", hs), True, sample={"PYTHONHASHSEED": hs, "digest": digests[hs][:16]})
-    if len(set(digests.values())) != 1:
-        raise Violation(case, "parse+compile results over the corpus differ between processes with different hash seeds: %r" % digests)
+        results[(hs, order)] = json.loads(r.stdout.strip().splitlines()[-1])
+        stats.case(("run", hs, order), True, sample={"PYTHONHASHSEED": hs, "order": order, "documents": len(results[(hs, order)])})
+    base_key = case["runs"][0]
+    base = results[tuple(base_key)]
+    for key, res in results.items():
+        for k in base:
+            if res.get(k) != base[k]:
+                raise Violation(case, "parse+compile result of %r differs between a process with PYTHONHASHSEED=%s processing the documents in %s order and one with PYTHONHASHSEED=%s in %s order" % (
+                    k, base_key[0], base_key[1], key[0], key[1]))
 
 
 def unit_determinism(a):
     stats = Stats()
-    sweep(stats, [{"sub": "determinism", "hashseeds": [0, 1, 2]}], check_determinism)
+    sweep(stats, [{"sub": "determinism", "runs": [[0, "forward"], [1, "reverse"], [2, "interleaved"]]}], check_determinism)
     return stats
 
 
@@ -492,5 +516,6 @@ def run(ctx):
                 "tag run, unknown language, ragged table, deep rule stack, stop-mode failures...) - each result must equal fresh instances modulo the id offset, compile must not "
                 "modify its input, the language table must stay unchanged; matcher level: any sequence of match_* calls then reset() == fresh matcher (classic and Markdown); "
                 "schedules: 2-3 parsers with gated scanners, one thread runnable at a time, interleaved at every line read - each result must equal the solo result; determinism: "
-                "digest of parse+compile over the corpus equal across processes with PYTHONHASHSEED 0/1/2. Non-trivial = a predecessor left non-default state / >=2 context switches.")
+                "per-document digests of parse+compile over corpus + pool + language-header spellings equal across processes with PYTHONHASHSEED 0/1/2 that process the documents in "
+                "forward / reverse / interleaved order (catches process-global caches poisoned by an earlier document). Non-trivial = a predecessor left non-default state / >=2 context switches.")
     ctx.assumptions += ["interleavings are at token-read granularity of separate instances under the GIL (data races of a free-threaded build are not modelled)"]
